@@ -16,6 +16,7 @@ import AioftpModel.Driver.PortPool
 import AioftpModel.Driver.Names
 import AioftpModel.Driver.Calendar
 import AioftpModel.Driver.ClientTree
+import AioftpModel.Driver.Backends
 
 open Codec Model Py
 
@@ -53,6 +54,8 @@ structure DState where
   sess : DriverSession.DState := {}
   sys : DriverCounters.DState := {}
   pool : DriverPortPool.DState := {}
+  sessp : DriverSession.DState := {}
+  bk : DriverBackends.ApiState := {}
 
 /-- pure components: tokens after the component word → answer -/
 def handlePure : List String → Option String
@@ -84,6 +87,12 @@ def handle (st : DState) (line : String) : DState × String :=
   | "pool" :: rest =>
     let (s', r) := DriverPortPool.handle st.pool rest
     ({ st with pool := s' }, r.getD "bad-op")
+  | "sessp" :: rest =>
+    let (s', r) := DriverBackends.handleSessP st.sessp rest
+    ({ st with sessp := s' }, r.getD "bad-op")
+  | "bk" :: rest =>
+    let (s', r) := DriverBackends.handleApi st.bk rest
+    ({ st with bk := s' }, r.getD "bad-op")
   | _ => (st, (handlePure toks).getD "bad-op")
 
 partial def loop (h : IO.FS.Stream) (out : IO.FS.Stream) (st : DState) : IO Unit := do
